@@ -70,7 +70,7 @@ for _p in PROPS.values():
     _p.setdefault('level', 'proof')
 
 NOT_APPLICABLE = {
- 'C11': "relates two runs on different inputs; needs uniqueness of derivation witnesses and a functional tokenizer spec, which no per-call contract within reach expresses (DESIGN.md 5, C11); its local ingredients are obligations of C10/C02/C05",
+ 'C11': "relates two runs on different inputs; the scanner is proved to be a function of the bytes (C10), but the property also needs the parser to be a function of the token sequence (uniqueness of derivation witnesses and completeness of acceptance; the parser theorem is a soundness theorem) and invariance of the scanner under inserted whitespace, which no per-call contract within reach expresses (DESIGN.md 5, C11); its local ingredients are obligations of C10/C02/C05",
  'C13': "quantifies over thread schedules; Kani has no threads and Verus only reasons about code written against its own permission-typed primitives (that would be a model, not the code)",
  'C14': "deadlock freedom under re-entrant dyn Fn handlers: lock state is in no signature, liveness is outside both verifiers, Kani's Mutex hits an unsupported syscall",
  'C15': "unwinding and lock poisoning are outside both execution models (Verus: no unwinding; Kani: panic = failure); the Err-propagation half is decided under C07",
